@@ -291,6 +291,6 @@ pub fn def() -> PropDef {
         rule: "ServerConfig (public fields, built directly) and ClientConfig (through ClientBuilder) with strings from a YAML-hostile set (empty, leading/trailing space, ': ', ' #', '- ', quotes, newline, tab, CR, backslash, ~, null, true/yes/on, 1e3, 0x1F, .inf, .nan, dates, anchors, tags, NEL/LS/PS/BOM/NUL, non-BMP) and their concatenations, printable ASCII and arbitrary Unicode; endpoint and user-token maps with 0..3 entries and hostile keys; limits over the usize edge set; finite floats incl. -0, subnormal and MAX; durations; optional paths; only configurations for which is_valid() holds are judged (the others are counted as excluded); oracle: save is Ok, load is Ok and equal (derived PartialEq), loaded.is_valid(); non-trivial = at least one string that YAML would type as a non-string or that needs quoting; distinct = distinct case",
         assumptions: &["floats are finite (NaN is not equal to itself under the derived PartialEq)", "equality is the crates' derived PartialEq"],
         abort_possible: false,
-        parts: |tier| vec![part("server_config", tier.pick(1000, 25000), server_case(), server_roundtrip), part("client_config", tier.pick(800, 20000), client_case(), client_roundtrip)],
+        parts: |tier| vec![part("server_config", tier.pick(1000, 250_000), server_case(), server_roundtrip), part("client_config", tier.pick(800, 200_000), client_case(), client_roundtrip)],
     }
 }
